@@ -321,7 +321,67 @@ def inside_branches(ctx: Ctx, f: FunctionInfo) -> List[Node]:
     return out
 
 
+def _canonical_returns(ctx: Ctx, f: FunctionInfo) -> List[Node]:
+    """returns of a local whose every reaching definition is os.path.realpath(...)"""
+    g = ctx.cfg(f)
+    rets = []
+    for n, v_ in effective_returns(ctx, f):
+        if isinstance(v_, ast.Name):
+            ds = ctx.rd(f).reaching(n.id, v_.id)
+            if ds and all(isinstance(g.nodes[d].ast, ast.Assign) and "os.path.realpath" in norm_text(g.nodes[d].ast.value) for d in ds):
+                rets.append(n)
+    return rets
+
+
+CONTAINMENT_PAIRS = [("/data/wh", "/data/wh", True), ("/data/wh", "/data/wh/x.parquet", True), ("/data/wh", "/data/wh/a/b", True),
+                     ("/data/wh", "/data/wh2", False), ("/data/wh", "/data/wh2/x", False), ("/data/wh", "/data", False),
+                     ("/data/wh", "/", False), ("/data/wh", "/etc/passwd", False), ("/data/wh", "/data/WH/x", False),
+                     ("/data/wh", "/data/w", False), ("/data/wh", "/data/whx", False), ("/data/wh", "/other/data/wh/x", False),
+                     ("/data/wh", "/data/wh.bak/x", False), ("/data/wh", "/data/wh /x", False)]
+_containment_memo: Dict[Tuple[int, str], Optional[List[Tuple[str, str, bool, str]]]] = {}
+
+
+def _containment_scenarios(ctx: Ctx, f: FunctionInfo, rets: List[Node]) -> Optional[List[Tuple[str, str, bool, str]]]:
+    """[(root, candidate, inside?, how the walk ends)] or None when the evaluator cannot follow the function."""
+    from .common import explore
+    key = (id(ctx), f.qname)
+    if key in _containment_memo:
+        return _containment_memo[key]
+    g = ctx.cfg(f)
+    out: Optional[List[Tuple[str, str, bool, str]]] = []
+    cand = {r.ast.value.id for r in rets}  # type: ignore[union-attr]
+    bases = {t.id for n in g.nodes if n.kind == "stmt" and isinstance(n.ast, ast.Assign) and is_canonical_base_call(ctx, f, n.ast.value)
+             for t in n.ast.targets if isinstance(t, ast.Name)}
+    cdefs = sorted({d for r in rets for d in ctx.rd(f).reaching(r.id, r.ast.value.id)})  # type: ignore[union-attr]
+    bdefs = sorted({n.id for n in g.nodes if n.kind == "stmt" and isinstance(n.ast, ast.Assign) and is_canonical_base_call(ctx, f, n.ast.value)})
+    dom = ctx.dom(f, NORMAL)
+    both = cdefs + bdefs
+    last = [x for x in both if all(y in dom[x] for y in both)]  # the walk starts once root AND candidate are both canonical
+    starts = sorted({d2 for d in last[:1] for d2, l in g.succ[d] if l in NORMAL})
+    stops = [n.id for n in g.nodes if n.kind in ("raise", "return")]
+    if len(cand) != 1 or not bases or not starts:
+        out = None
+    else:
+        for root, c_, want in CONTAINMENT_PAIRS:
+            init: Dict[object, object] = {next(iter(cand)): c_}
+            init.update({b: root for b in bases})
+            ends = set()
+            for nid, store, _asm in explore(ctx, f, starts, {}, stop=stops, init=init):
+                n_ = g.nodes[nid]
+                k_ = "raise:" + str(n_.raised) if n_.kind == "raise" else ("return" if nid in {r.id for r in rets} else n_.kind + "?")
+                if any(isinstance(k, tuple) and k[0] == "undecided" for k in store):
+                    k_ = "undecided"
+                ends.add(k_)
+            if len(ends) != 1 or "undecided" in ends:
+                out = None
+                break
+            out.append((root, c_, want, next(iter(ends))))
+    _containment_memo[key] = out
+    return out
+
+
 def r2(ctx: Ctx) -> None:
+    scenario_ok: Set[str] = set()
     ctx.rule("C17.R2", "sanitiser shape: returns only after commonpath([realpath(base), realpath(joined)]) == realpath(base); "
              "else ValueError; absolute inputs re-rooted; no string-prefix containment", 6)
     for q, var_hint in (("storage_backend.LocalStorageBackend._resolve_path", "full_path"),
@@ -330,8 +390,10 @@ def r2(ctx: Ctx) -> None:
         g = ctx.cfg(f)
         sl = ctx.slicer(f)
         cps = ctx.calls(f, prim="os.path.commonpath")
-        ctx.ob("C17.R2", f, "containment uses os.path.commonpath", cps[0] if cps else None, bool(cps),
-               "true path-boundary test (not a string prefix: /data/wh vs /data/wh2)")
+        rets_early = _canonical_returns(ctx, f)
+        if cps or not rets_early or _containment_scenarios(ctx, f, rets_early) is None:
+            ctx.ob("C17.R2", f, "containment uses os.path.commonpath", cps[0] if cps else None, bool(cps),
+                   "true path-boundary test (not a string prefix: /data/wh vs /data/wh2)")
         for c in cps:
             org = sl.origins(c.ast, c.id)
             fns = {(dotted(x.func) or "") for x in org["calls"] if isinstance(x, ast.Call)}
@@ -351,12 +413,24 @@ def r2(ctx: Ctx) -> None:
                    f"{lossy} rewrites the canonical path before the containment test: different directories compare equal")
         # the return of the resolved path is dominated by the inside-test; the not-inside edge raises ValueError
         brs = inside_branches(ctx, f)
-        rets = []
-        for n, v_ in effective_returns(ctx, f):
-            if isinstance(v_, ast.Name):
-                ds = ctx.rd(f).reaching(n.id, v_.id)
-                if ds and all(isinstance(g.nodes[d].ast, ast.Assign) and "os.path.realpath" in norm_text(g.nodes[d].ast.value) for d in ds):
-                    rets.append(n)
+        rets = _canonical_returns(ctx, f)
+        if not cps and rets:
+            # no commonpath in sight: the containment test was re-implemented (path components, PurePath, a predicate helper).
+            # Decided by scenario instead - nothing is run: the function is walked from the canonicalisation of the candidate
+            # with (root, candidate) pairs in the store; an inside candidate must reach the return, every outside one
+            # (sibling sharing the prefix, parent, '/', unrelated, case-different) must end in ValueError
+            scen = _containment_scenarios(ctx, f, rets)
+            if scen is not None:
+                wrong = [(r_, c_, want, got) for r_, c_, want, got in scen if got != ("return" if want else "raise:ValueError")]
+                for r in rets:
+                    ctx.ob("C17.R2", f, "the resolved path is returned only when inside; outside raises ValueError", r, not wrong,
+                           f"scenario walk over {len(scen)} (root, candidate) pairs of the re-implemented containment test" + (
+                               f" - but candidate {wrong[0][1]!r} under root {wrong[0][0]!r} ends in {wrong[0][3]} "
+                               f"(expected {'the return' if wrong[0][2] else 'ValueError'})" if wrong else
+                               ": siblings sharing the prefix, parents, '/', unrelated and case-different paths are all refused"))
+                if not wrong:
+                    scenario_ok.add(q)
+                continue
         if not brs or not rets:
             ctx.ob("C17.R2", f, "inside-test guards the return", None, False, "anchor moved: `inside` branch / resolved return not found")
             continue
@@ -405,6 +479,8 @@ def r2(ctx: Ctx) -> None:
                     t2, f2 = edge_target(g, b, "true"), edge_target(g, b, "false")
                     if t2 is not None and r.id in reachable_from(g, t2, NORMAL) and (f2 is None or r.id not in reachable_from(g, f2, NORMAL)):
                         guarded = True
+                if q in scenario_ok and not guarded:
+                    guarded = r.id in {x.id for x in _canonical_returns(ctx, f)}  # decided by the containment scenarios above
                 ok = canon and guarded
                 why += f" (realpath'ed: {canon}, under the inside-test: {guarded})"
             ctx.ob("C17.R2", f, "returned path is sanitised", r, ok,
